@@ -78,7 +78,7 @@ fn main() {
             let case = &v["case"];
             let ok = match case["kind"].as_str().unwrap_or("") {
                 "law" => laws::replay(&ctx, case),
-                "stream" => if prop == "C05" { termination::replay(&ctx, case) } else { streams::replay(&ctx, case) },
+                "stream" | "stream_random" => if prop == "C05" { termination::replay(&ctx, case) } else { streams::replay(&ctx, case) },
                 "exact" => exact::replay(&ctx, case),
                 "ctor" => ctors::replay(&ctx, case),
                 "tree_freq" | "alias_sample" | "alias_stream" => { eprintln!("frequency cases are re-run by the check itself (seeded)"); false }
